@@ -362,7 +362,11 @@ class Check:
                     if h == "T":
                         continue
                     if h.startswith("bad-op"):
-                        raise Infra(f"driver rejected holds line: {l[:300]} -> {h}")
+                        # the op line itself was accepted by the model (checked above), so what cannot be read is the
+                        # implementation's answer: an answer of unexpected shape is a failure of the implementation
+                        self.failures.append(Failure("property", line=l, impl=im,
+                                                     detail=f"the implementation's answer has an unexpected shape ({h[:200]})"))
+                        continue
                     self.failures.append(Failure("property", line=l, impl=im, detail=h))
         if len(self.samples) < 5 and self.lines:
             for idx in self.rng.sample(range(n), min(5, n)):
